@@ -11,9 +11,11 @@ import (
 	"os"
 	"path/filepath"
 	"regexp"
+	"runtime"
 	"sort"
 	"strconv"
 	"strings"
+	"time"
 
 	"go.uber.org/zap"
 	"go.uber.org/zap/zapcore"
@@ -68,7 +70,7 @@ type c19Op struct {
 }
 
 func init() {
-	props["C19"] = &Prop{Gen: c19Gen, Exec: c19Exec}
+	props["C19"] = &Prop{Gen: c19Gen, Exec: c19ExecConfirmed}
 }
 
 // ---------------------------------------------------------------- sandbox and process-global state
@@ -241,6 +243,34 @@ func c19Strs(xs []string) []string {
 }
 
 // ---------------------------------------------------------------- executor
+
+// c19ExecConfirmed: the number of open file descriptors of the process is also touched by the Go runtime and its libraries
+// (pollers, zone data, finalizers); a descriptor leak of zap is deterministic. A leak verdict is therefore kept only when the
+// same op leaks again on a second and a third execution (the reported result is the last one).
+func c19ExecConfirmed(raw json.RawMessage) Result {
+	leaky := func(r Result) bool {
+		if !r.Oracle.OK && strings.HasSuffix(r.Oracle.Sig, ":file") {
+			return true
+		}
+		if m, ok := r.Impl.(map[string]any); ok {
+			failed, _ := m["err"].(bool)
+			if n, ok := m["fds"].(int); ok && n > 0 && failed { // descriptors open although the call failed
+				return true
+			}
+			if n, ok := m["fds_after"].(int); ok && n > 0 { // descriptors open after the close function ran
+				return true
+			}
+		}
+		return false
+	}
+	res := c19Exec(raw)
+	for i := 0; i < 2 && leaky(res); i++ {
+		runtime.GC()
+		time.Sleep(2 * time.Millisecond)
+		res = c19Exec(raw)
+	}
+	return res
+}
 
 func c19Exec(raw json.RawMessage) Result {
 	var op c19Op
